@@ -65,6 +65,20 @@ func RunC01(t *testing.T, spec kernel.Spec) *kernel.Outcome {
 			remote = &c01JWKS{pub: key.Public()}
 			ks = rp.NewRemoteKeySet(&http.Client{Transport: remote}, "https://op.sim/keys")
 			o.Probe("remote-key-set-worlds")
+			// one remote world in three: a provider with a single signing key that carries NO key id (tokens carry
+			// none either); a rotation swaps the key itself
+			if tape.Sub("cfg01-remote").Bool(1, 3) {
+				remote.kidless = true
+				o.Probe("kidless-provider-worlds")
+			}
+		}
+		// the keys a kid-less provider rotates between; "wrong" is never served
+		served := []jose.JSONWebKey{key}
+		for i := 0; i < 8 && len(served) < 3; i++ {
+			k := world.FixtureKey(fam.Prefix, i)
+			if k.KeyID != key.KeyID && k.KeyID != wrong.KeyID {
+				served = append(served, k)
+			}
 		}
 		n := 100 + cfg.Int(100)
 		steps(o, tape, n, func(i int, ch *kernel.Chooser) string {
@@ -79,6 +93,15 @@ func RunC01(t *testing.T, spec kernel.Spec) *kernel.Outcome {
 				c01Kid = fmt.Sprintf("k%d", remote.gen)
 				remote.hit = false
 				c01AfterSleep = nil
+				if remote.kidless {
+					cur := served[remote.gen%len(served)]
+					remote.pub, c01Kid = cur.Public(), ""
+					d := c01One(o, i, ch, fam.Alg, cur, wrong, ks)
+					if remote.hit {
+						o.Fault("jwks-" + remote.lastFault)
+					}
+					return "kid-less provider (key generation " + fmt.Sprint(remote.gen) + "): " + d
+				}
 				if ch.Bool(1, 4) {
 					// two key renames in one instant: another token is verified under the first new name (a download
 					// happens now), the provider renames again, and the step's token - signed under that second name -
@@ -344,6 +367,7 @@ type c01JWKS struct {
 	pub       jose.JSONWebKey
 	gen       int
 	failNext  string
+	kidless   bool
 	hit       bool
 	lastFault string
 }
@@ -364,6 +388,9 @@ func (j *c01JWKS) RoundTrip(req *http.Request) (*http.Response, error) {
 	}
 	k := j.pub
 	k.KeyID, k.Use = fmt.Sprintf("k%d", j.gen), "sig"
+	if j.kidless {
+		k.KeyID = ""
+	}
 	b, _ := json.Marshal(map[string]any{"keys": []jose.JSONWebKey{k}})
 	return mk(200, string(b))
 }
